@@ -10,6 +10,7 @@ pub mod gen;
 pub mod model;
 pub mod observe;
 pub mod program;
+pub mod readers;
 pub mod refrender;
 pub mod rng;
 pub mod val;
